@@ -17,6 +17,7 @@ import StamModel.Driver.Hs
 import StamModel.Driver.Sq
 import StamModel.Driver.Vo
 import StamModel.Driver.Rg
+import StamModel.Driver.Px
 /-
   Line-protocol driver: one request per line on stdin, one answer per line on stdout.
   Built as the `stamdriver` executable (core Lean only).
@@ -46,6 +47,7 @@ def step (line : String) : String :=
   | "sq" :: args => sq args
   | "vo" :: args => vo args
   | "rg" :: args => rg args
+  | "px" :: args => px args
   | "sqspec" :: args => sqspec args
   | ["reset"] => "ok"
   | _ => "bad-op"
